@@ -17,9 +17,10 @@ pub struct C16;
 ///   variant 3: the last file exists in the including directory AND in INCLUDE_DIR (directory wins;
 ///              the INCLUDE_DIR copy declares a different class)
 ///   variant 4: every include statement is written twice
-///   variant 5: f0's includes are nested inside a block: let / foreach / if / multiclass > foreach
+///   variant 5: f0's includes are nested inside a block: let / foreach / if / multiclass > foreach / defset
 ///   variant 8: every include statement has a comment between the keyword and the file name
 ///   variant 9: every file additionally has an include statement with an empty file name
+///   variant 10: the files with an odd number are empty (zero bytes): files of the workspace like any other
 ///   variant 7: no file but the root declares anything by name: the others hold an include of a
 ///              missing file, their includes and an anonymous def of the root's class
 ///   variant 6: two directories: odd files live in INCLUDE_DIR, even files next to the root; both
@@ -30,6 +31,11 @@ fn build(n: usize, edges: u64, variant: u64) -> (Vec<(String, String)>, Vec<Vec<
     let last = n - 1;
     for i in 0..n {
         let mut t = String::new();
+        if variant == 10 && i % 2 == 1 {
+            // an empty file: includes nothing, declares nothing
+            files.push((format!("f{i}.td"), t));
+            continue;
+        }
         if variant == 7 && i > 0 {
             t.push_str(&format!("// file {i}\n"));
         } else {
@@ -75,13 +81,14 @@ fn build(n: usize, edges: u64, variant: u64) -> (Vec<(String, String)>, Vec<Vec<
         }
         if i == 0 && variant == 5 && !incs.is_empty() {
             // the root's includes are nested in a block; which kind depends on the graph
-            match edges % 4 {
+            match edges % 5 {
+                4 => t.push_str(&format!("defset list<K0> ZS = {{\n{incs}}}\n")),
                 0 => t.push_str(&format!("let zz = 1 in {{\n{incs}}}\n")),
                 1 => t.push_str(&format!("foreach zi = [1] in {{\n{incs}}}\n")),
                 // (the include statements spread over both branches of the if, by graph)
                 2 => {
                     let lines: Vec<&str> = incs.lines().collect();
-                    let k = (edges as usize / 4) % (lines.len() + 1);
+                    let k = (edges as usize / 5) % (lines.len() + 1);
                     let join = |ls: &[&str]| ls.iter().map(|l| format!("{l}\n")).collect::<String>();
                     if k == lines.len() {
                         t.push_str(&format!("if 1 then {{\n{incs}}}\n"));
@@ -100,6 +107,9 @@ fn build(n: usize, edges: u64, variant: u64) -> (Vec<(String, String)>, Vec<Vec<
             }
         } else {
             for &j in &adj[i] {
+                if variant == 10 && j % 2 == 1 {
+                    continue;
+                }
                 t.push_str(&format!("def d{i}_{j} : K{j};\n"));
             }
         }
@@ -292,20 +302,27 @@ fn check(n: usize, edges: u64, variant: u64) -> Verdict {
             *names.entry(s.name.to_string()).or_default() += 1;
         }
         let mut want_names: BTreeMap<String, usize> = BTreeMap::new();
-        if variant != 7 || i == 0 {
+        let empty = |k: usize| variant == 10 && k % 2 == 1;
+        if (variant != 7 || i == 0) && !empty(i) {
             want_names.insert(class_name(i), 1);
         }
         if variant != 7 {
             for j in &adj[i] {
-                want_names.insert(format!("d{i}_{j}"), 1);
+                if !empty(*j) {
+                    want_names.insert(format!("d{i}_{j}"), 1);
+                }
             }
         }
         if variant == 6 {
             want_names.insert(format!("c{i}"), 1);
         }
-        if variant == 5 && i == 0 && edges % 4 == 3 && !adj[0].is_empty() {
+        if variant == 5 && i == 0 && edges % 5 == 3 && !adj[0].is_empty() {
             // the multiclass that holds the root's nested includes
             want_names.insert("ZM".to_string(), 1);
+        }
+        if variant == 5 && i == 0 && edges % 5 == 4 && !adj[0].is_empty() {
+            // the defset that holds them
+            want_names.insert("ZS".to_string(), 1);
         }
         if names != want_names {
             return fail("C16.single-indexing", format!("file {i}: outline {names:?}, expected {want_names:?}"));
@@ -326,6 +343,9 @@ fn check(n: usize, edges: u64, variant: u64) -> Verdict {
             }
             continue;
         }
+        if empty(i) {
+            continue;
+        }
         let decl = text.find(&format!("class K{i}")).unwrap() + "class ".len();
         let refs = a.references(pos(fid, decl)).unwrap_or_default();
         let mut got_refs: Vec<(String, usize)> = refs.iter().map(|r| (ws.fs.path_of(r.file).unwrap_or_default(), r2(r.range).0)).collect();
@@ -337,6 +357,10 @@ fn check(n: usize, edges: u64, variant: u64) -> Verdict {
                 let p = t.find(&format!("def d{k}_{i} : K{i};")).unwrap() + format!("def d{k}_{i} : ").len();
                 want_refs.push((path_of(k), p));
             }
+        }
+        if variant == 5 && i == 0 && edges % 5 == 4 && !adj[0].is_empty() {
+            // the element type of the defset that holds the root's includes
+            want_refs.push((path_of(0), text.find("list<K0>").unwrap() + "list<".len()));
         }
         want_refs.sort();
         if got_refs != want_refs {
@@ -376,7 +400,7 @@ impl Property for C16 {
         true
     }
     fn rule(&self) -> String {
-        "exhaustive: every edge set (self-loops included) over <=3 files (thorough: <=4, all 65536) x 10 variants {plain, +missing includes (at the end of the root; first in every other file, with the same extent as the root's first include), last file only in INCLUDE_DIR, last file in both directory and INCLUDE_DIR, every include written twice, root's includes nested in a block (let / foreach / the two branches of an if / a foreach inside a multiclass, by graph), two directories that each hold their own common.td included everywhere by the same text, no file but the root declaring anything by name (the others hold a missing include, their includes and an anonymous def of the root's class: every diagnostic and every reference exactly once however many paths lead to a file), every include statement written with a comment between the keyword and the file name, an include statement with an empty file name in every file}; family diamond-ladders: 1..89 stacked diamonds (up to 268 files reached along 2^89 paths, with and without cross includes inside a level) within a traversal budget linear in files + include statements; quick adds 3000 sampled 4-file graphs; thorough adds random graphs over 5..8 files. Each file = class K<i>; its include statements; one def per included file using that file's class. Oracle: set_root_file + index terminate (traversal budget), keys(diagnostics()) = reference reachable set, document links = one per resolvable include statement on its string literal with the reference target, a diagnostic on each unresolvable include and none elsewhere, each declaration once in its file's outline, references(K<j>) = its uses in every reachable includer. distinct = digest; non-trivial = the graph has a cycle or a diamond, or the variant is not plain".into()
+        "exhaustive: every edge set (self-loops included) over <=3 files (thorough: <=4, all 65536) x 11 variants {plain, +missing includes (at the end of the root; first in every other file, with the same extent as the root's first include), last file only in INCLUDE_DIR, last file in both directory and INCLUDE_DIR, every include written twice, root's includes nested in a block (let / foreach / the two branches of an if / a foreach inside a multiclass / a defset, by graph), two directories that each hold their own common.td included everywhere by the same text, no file but the root declaring anything by name (the others hold a missing include, their includes and an anonymous def of the root's class: every diagnostic and every reference exactly once however many paths lead to a file), every include statement written with a comment between the keyword and the file name, an include statement with an empty file name in every file, every other file empty (zero bytes)}; family diamond-ladders: 1..89 stacked diamonds (up to 268 files reached along 2^89 paths, with and without cross includes inside a level) within a traversal budget linear in files + include statements; quick adds 3000 sampled 4-file graphs; thorough adds random graphs over 5..8 files. Each file = class K<i>; its include statements; one def per included file using that file's class. Oracle: set_root_file + index terminate (traversal budget), keys(diagnostics()) = reference reachable set, document links = one per resolvable include statement on its string literal with the reference target, a diagnostic on each unresolvable include and none elsewhere, each declaration once in its file's outline, references(K<j>) = its uses in every reachable includer. distinct = digest; non-trivial = the graph has a cycle or a diamond, or the variant is not plain".into()
     }
     fn assumptions(&self) -> Vec<String> {
         vec!["search order from the documentation: directory of the including file, then $INCLUDE_DIR (set once per process to a virtual directory)".into()]
@@ -385,7 +409,7 @@ impl Property for C16 {
         let mut v = Vec::new();
         for n in 1..=3usize {
             v.push(
-                Family::new(&format!("all-graphs-{n}"), 10, move |variant, _r, emit| {
+                Family::new(&format!("all-graphs-{n}"), 11, move |variant, _r, emit| {
                     for e in 0..(1u64 << (n * n)) {
                         if !emit(json!({"kind": "inc", "n": n, "edges": e, "variant": variant})) {
                             return;
@@ -410,7 +434,7 @@ impl Property for C16 {
         );
         if ctx.tier == Tier::Thorough {
             v.push(
-                Family::new("all-graphs-4", 10 * 16, |chunk, _r, emit| {
+                Family::new("all-graphs-4", 11 * 16, |chunk, _r, emit| {
                     let variant = chunk / 16;
                     let hi = chunk % 16;
                     for lo in 0..(1u64 << 12) {
@@ -432,7 +456,7 @@ impl Property for C16 {
                             e |= 1 << b;
                         }
                     }
-                    if !emit(json!({"kind": "inc", "n": n, "edges": e, "variant": rng.below(10)})) {
+                    if !emit(json!({"kind": "inc", "n": n, "edges": e, "variant": rng.below(11)})) {
                         return;
                     }
                 }
@@ -441,7 +465,7 @@ impl Property for C16 {
             v.push(Family::new("sampled-graphs-4", 12, |_c, rng, emit| {
                 for _ in 0..250 {
                     let e = rng.next() & 0xFFFF;
-                    if !emit(json!({"kind": "inc", "n": 4, "edges": e, "variant": rng.below(10)})) {
+                    if !emit(json!({"kind": "inc", "n": 4, "edges": e, "variant": rng.below(11)})) {
                         return;
                     }
                 }
